@@ -7,6 +7,7 @@ import (
 	"encoding/json"
 	"fmt"
 	"math/rand"
+	"strings"
 	"sync"
 	"time"
 
@@ -37,6 +38,8 @@ type immWorld struct {
 	// (two delegations with the same kind of bound, the later one tighter); both are shared and part of the snapshot
 	inv3         *invocation.Token
 	leaf3, root3 *delegation.Token
+	// iterators obtained once and kept: ranging over one is a read-only use of the token like any other, as often as one likes
+	keptIMeta, keptDMeta, keptArgs func(func(string, ipld.Node) bool)
 }
 
 var immKeyNames = []string{"zeta", "alpha", "mid", "beta", "omega"}
@@ -173,6 +176,7 @@ func newImmWorld(w *world, order []int, decoded bool) (*immWorld, error) {
 	if iw.inv3, err = invocation.New(iw.aud.id, iw.iss.id, command.MustParse("/x/y"), []cid.Cid{l3, r3}, iopts...); err != nil {
 		return nil, err
 	}
+	iw.keptIMeta, iw.keptDMeta, iw.keptArgs = iw.inv.Meta().Iter(), iw.dlg.Meta().Iter(), iw.inv.Arguments().Iter()
 	return iw, nil
 }
 
@@ -513,6 +517,29 @@ var immOps = []immOp{
 	}},
 	{"accessors", func(iw *immWorld) string {
 		return fmt.Sprint(iw.inv.Issuer(), iw.inv.Subject(), iw.inv.Command(), len(iw.inv.Proof()), len(iw.inv.Nonce()), iw.dlg.Audience(), iw.dlg.IsValidNow(), iw.inv.IsValidNow())
+	}},
+	{"every accessor of the three tokens", func(iw *immWorld) string {
+		// (an invocation without an audience: the executor is its subject - asking does not make it part of the token)
+		out := []any{iw.inv.Audience(), iw.inv.Cause(), iw.inv.Expiration() == nil, iw.inv.InvokedAt() == nil, len(iw.inv.Meta().String()) > 0, len(iw.inv.Arguments().String()) > 0,
+			iw.inv2.Audience(), iw.inv3.Audience(), iw.dlg.Issuer(), iw.dlg.Subject(), iw.dlg.Command(), len(iw.dlg.Nonce()), iw.dlg.NotBefore() == nil, iw.dlg.Expiration() == nil,
+			len(iw.dlg.Policy()), iw.leaf2.Subject(), iw.leaf3.Audience(), iw.root3.Subject()}
+		return fmt.Sprint(out...)
+	}},
+	{"a kept iterator, ranged over again", func(iw *immWorld) string {
+		var out []string
+		for _, it := range []func(func(string, ipld.Node) bool){iw.keptIMeta, iw.keptDMeta, iw.keptArgs} {
+			n := 0
+			for k := range it {
+				out = append(out, k)
+				n++
+			}
+			out = append(out, fmt.Sprint(n))
+			// ... and left early, then started again
+			for range it {
+				break
+			}
+		}
+		return strings.Join(out, ",")
 	}},
 }
 
